@@ -62,13 +62,42 @@ def run_seed(prop, seed, tier, profile=None, overrides=None):
                 break
     elif prop == "C15":
         a, b, sids = twins.c15_twins(cfg_json, rr.recipes, client=0)
-        v, sid = twins.compare_traces(a, b, ["C15"], "interleaving-twin", a.world, client=0, align=sids)
+        v, sid = twins.compare_traces(a, b, ["C15"], "interleaving-twin", a.world, client=0, align=sids, same_layout=True)
         twin_steps += len(sids)
         if v is not None:
             v.sid = sid
             vj = v.to_json()
             vj["twin"] = {"a": "interleaved", "b": "solo"}
             vj["twin_prior"] = _prior(a, sid) + _prior(b, sid)
+            rec["violations"].append(vj)
+        else:
+            p, f = twins.c15_more_twins(cfg_json, rr.recipes, client=0)
+            twin_steps += 2 * len(sids)
+            for other, name in ((p, "poison-prefix-twin"), (f, "fresh-object-twin")):
+                v, sid = twins.compare_traces(other, b, ["C15"], name, other.world, client=0, align=sids, same_layout=True)
+                if v is not None:
+                    v.sid = sid
+                    vj = v.to_json()
+                    vj["twin"] = {"a": name, "b": "solo"}
+                    vj["twin_prior"] = _prior(other, sid) + _prior(b, sid)
+                    rec["violations"].append(vj)
+                    break
+            else:
+                vj, n = _history_twin_violation(cfg_json, rr.recipes, [x for x in rr.violations])
+                twin_steps += n
+                if vj is not None:
+                    rec["violations"].append(vj)
+    elif prop == "C10" and twins.reused_estimator_ops(rr.recipes, cfg_json["ops"]):
+        # the cut-off chosen for an operation must not depend on what the Operation object did before
+        # (the estimator's own inaccuracy is a known finding, which would hide that)
+        a, f = twins.fresh_object_twin(cfg_json, rr.recipes)
+        v, sid = twins.compare_traces(f, a, ["C10", "C15"], "fresh-object-twin", f.world, same_layout=True)
+        twin_steps += a.steps
+        if v is not None:
+            v.sid = sid
+            vj = v.to_json()
+            vj["twin"] = {"a": "fresh-object-twin", "b": "recorded"}
+            vj["twin_prior"] = _prior(a, sid) + _prior(f, sid)
             rec["violations"].append(vj)
     elif prop == "C18":
         a, b = twins.c18_twins(cfg_json, rr.recipes)
@@ -86,6 +115,28 @@ def run_seed(prop, seed, tier, profile=None, overrides=None):
         rec["violations"].extend(extra)
     rec["twin_steps"] = twin_steps
     return rec, rr
+
+
+def _history_twin_violation(cfg, recipes, main_viols):
+    """C15: see twins.history_twin. Returns a violation json or None."""
+    from sim import twins
+    from sim.oracles import Violation
+
+    if main_viols:
+        return None, 0
+    first, second = twins.history_twin(cfg, recipes, client=0)
+    n = first.steps + second.steps
+    if first.violations or first.harness_error or second.harness_error:
+        return None, n  # not clean by itself: whatever that is, it is not shown to depend on the history
+    bad = [v for v in second.violations if v.oracle in ("op-refinement", "valid-request") and v.sid is not None]
+    if not bad:
+        return None, n
+    v0 = bad[0]
+    v = Violation(["C15"], "history-twin", "acts-differently-after-look-alikes", dict(v0.cell), f"sid {v0.sid}: {v0.failure}: {v0.detail[:160]} (the same program with other fresh angles, run without the look-alike operations on unrelated objects, is clean)")
+    v.sid = v0.sid
+    vj = v.to_json()
+    vj["twin"] = {"a": "history-twin", "b": "solo"}
+    return vj, n
 
 
 def _prior(rr, sid):
@@ -113,6 +164,38 @@ def c14_checks(cfg, rr, seed):
     ks = set(keys)
     if any(k not in ks for k in skeys):
         out.append(Violation(["C14"], "key-hygiene", "foreign-key", cell0, "a key reached the sampler that Config.random_key did not hand out").to_json())
+    # long key streams: a block-wise or cached key supply may repeat a key only after many draws
+    if seed % 4 == 0:
+        from sim.world import reset_library
+        from photon_weave.photon_weave import Config
+        from photon_weave.state.polarization import Polarization
+        from photon_weave.operation import Operation, PolarizationOperationType
+
+        reset_library(contraction=cfg.get("contraction", True), seed=seed % 9973 + 11)
+        seams.reset(mode="real")
+        C = Config()
+        nkeys = 4200
+        for _ in range(nkeys):
+            C.random_key
+        ks = list(seams.keys_log())
+        if len(set(ks)) != len(ks):
+            first = next(i for i in range(1, len(ks)) if ks[i] in set(ks[:i]))
+            out.append(Violation(["C14"], "key-hygiene", "key-reused", cell0, f"key number {first} handed out by Config.random_key after one set_seed repeats an earlier one").to_json())
+        n += 1
+        if seed % 32 == 0 and not out:
+            # the same through measurements: identically prepared states measured in a shot loop
+            seams.reset(mode="real")
+            C.set_seed(seed % 9973 + 12)
+            H = Operation(PolarizationOperationType.H)
+            for _ in range(1100):
+                p_ = Polarization()
+                p_.apply_operation(H)
+                p_.measure()
+            sk = list(seams.sampler_keys_log())
+            if len(set(sk)) != len(sk):
+                first = next(i for i in range(1, len(sk)) if sk[i] in set(sk[:i]))
+                out.append(Violation(["C14"], "key-hygiene", "key-reused", cell0, f"shot {first} of a measurement loop after one set_seed used the key of an earlier shot").to_json())
+            n += 1100
     # twin: program = client 0's steps; prefixes = nothing vs the other clients' steps + junk
     P = [r for r in rr.recipes if r.get("client", 0) == 0]
     others = [r for r in rr.recipes if r.get("client", 0) != 0]
@@ -193,6 +276,16 @@ def run_recipes_for_prop(prop, cfg, recipes, twin=None):
     from sim import runner, twins
 
     cfg = dict(cfg)
+    if prop == "C10" and twin is not None:
+        a, f = twins.fresh_object_twin(cfg, recipes)
+        out = [v.to_json() for v in a.violations if prop in v.props]
+        v, sid = twins.compare_traces(f, a, ["C10", "C15"], "fresh-object-twin", f.world, same_layout=True)
+        if v is not None:
+            v.sid = sid
+            vj = v.to_json()
+            vj["twin_prior"] = _prior(a, sid) + _prior(f, sid)
+            out.append(vj)
+        return out
     if prop not in ("C08", "C15", "C18", "C14") or (twin is None and prop != "C14"):
         rr = runner.execute_run(cfg, recipes=copy.deepcopy(recipes))
         out = [v.to_json() for v in rr.violations if prop in v.props]
@@ -213,12 +306,25 @@ def run_recipes_for_prop(prop, cfg, recipes, twin=None):
             out.append(vj)
     elif prop == "C15":
         a, b, sids = twins.c15_twins(cfg, recipes, client=0)
-        v, sid = twins.compare_traces(a, b, ["C15"], "interleaving-twin", a.world, client=0, align=sids)
+        v, sid = twins.compare_traces(a, b, ["C15"], "interleaving-twin", a.world, client=0, align=sids, same_layout=True)
         if v is not None:
             v.sid = sid
             vj = v.to_json()
             vj["twin_prior"] = _prior(a, sid) + _prior(b, sid)
             out.append(vj)
+        p, f = twins.c15_more_twins(cfg, recipes, client=0)
+        for other, name in ((p, "poison-prefix-twin"), (f, "fresh-object-twin")):
+            v, sid = twins.compare_traces(other, b, ["C15"], name, other.world, client=0, align=sids, same_layout=True)
+            if v is not None:
+                v.sid = sid
+                vj = v.to_json()
+                vj["twin_prior"] = _prior(other, sid) + _prior(b, sid)
+                out.append(vj)
+        if not out:
+            rr0 = runner.execute_run(dict(cfg), recipes=copy.deepcopy(recipes), stop_on_taint=False)
+            vj, _ = _history_twin_violation(cfg, recipes, list(rr0.violations))
+            if vj is not None:
+                out.append(vj)
     elif prop == "C18":
         a, b = twins.c18_twins(cfg, recipes)
         v, sid = twins.compare_footprints(a, b)
